@@ -238,7 +238,17 @@ pub fn worker(prop: &dyn Prop, tier: Tier, seed: u64, runs: &[u64], pool: usize,
         let ss = subseed(seed, prop.id(), i);
         let spec = prop.generate(ss, tier);
         let t0 = Instant::now();
-        let mut report = prop.exec(&spec, &env);
+        // a panic of the scenario code itself (on this thread) is a harness error, not a dead worker
+        let mut report = match std::panic::catch_unwind(std::panic::AssertUnwindSafe(|| prop.exec(&spec, &env))) {
+            Ok(r) => r,
+            Err(e) => {
+                let mut r = Report::default();
+                let recorded = crate::common::take_panics();
+                r.harness_errors.push(format!("scenario code panicked: {} {}", crate::sched::panic_text(&*e), recorded.last().cloned().unwrap_or_default()));
+                r.evaluations = 1;
+                r
+            }
+        };
         report.normalize();
         let mut line = RunLine { run: i, subseed: ss, pool, wall_ms: 0, report: Report::default(), replay: None, shrink_steps: 0, replay_verified: None };
         // a new (unlisted) violation: minimise and write the replay file
